@@ -310,7 +310,7 @@ def make_env(workdir, seed):
     return env
 
 
-def observe(tool, env, out, serial, plan=None, controlled=True):
+def observe(tool, env, out, serial, plan=None, controlled=True, nworkers=None):
     fn, has_serial = TOOLS[tool]
     for p in (out, out + ".npy"):
         if os.path.isdir(p):
@@ -321,7 +321,7 @@ def observe(tool, env, out, serial, plan=None, controlled=True):
     sys.stdout = io.StringIO()
     try:
         if controlled:
-            with vpool.controlled(plan) as ctl:
+            with vpool.controlled(plan, nworkers=nworkers) as ctl:
                 with audit.recording(reads=True) as ev:
                     st, val = call(lambda: fn(env, out, serial))
         else:
@@ -415,6 +415,14 @@ def run_case(case, workdir):
             ctl2, ev2, dg2, obs2 = observe(tool, env, out, False, plan)
             if dg2 != dg:
                 raise RuntimeError("harness: replaying schedule %r gave another observation" % (plan,))
+    # the size of the pool is visible to the code (Pool()._processes, os.cpu_count()): 1, 2, 3 and 5 workers
+    import unittest.mock
+    for nw in (1, 2, 3, 5):
+        with unittest.mock.patch("os.cpu_count", return_value=nw), unittest.mock.patch("multiprocessing.cpu_count", return_value=nw):
+            ctl, ev, dg, obs = observe(tool, env, out, False, {}, nworkers=nw)
+        rec.exe([tool, "workers", nw], nontrivial=True, trans=sum(c["n"] for c in ctl.calls))
+        if dg != base:
+            rec.fail("worker_count_dependent", {"tool": tool, "workers": nw}, "%r vs %r with the default pool size" % (obs, seen[base][1]))
     if has_serial:
         ctl, ev, dg, obs = observe(tool, env, out, True, {})
         rec.exe([tool, "serial"], nontrivial=True)
